@@ -1,3 +1,4 @@
+import math
 import struct
 from dataclasses import dataclass
 
@@ -76,9 +77,12 @@ class LowerArithConstant(RewritePattern):
                 s32_min = signed_lower_bound(32)
                 s32_max = signed_upper_bound(32)
                 # If the value is an integer that fits in s32, then convert.
-                if (val_data := op_val.value.data).is_integer() and s32_min <= (
-                    int_val := int(val_data)
-                ) < s32_max:
+                if (
+                    (val_data := op_val.value.data).is_integer()
+                    and s32_min <= (int_val := int(val_data)) < s32_max
+                    # fcvt.d.w cannot produce -0.0
+                    and not (int_val == 0 and math.copysign(1.0, val_data) < 0)
+                ):
                     rewriter.replace(
                         op,
                         [
@@ -370,6 +374,9 @@ lower_arith_maxf = LowerBinaryFloatOp(arith.MaximumfOp, riscv.FMaxSOp, riscv.FMa
 class LowerArithNegf(RewritePattern):
     @op_type_rewrite_pattern
     def match_and_rewrite(self, op: arith.NegfOp, rewriter: PatternRewriter) -> None:
+        if not isinstance(op.operand.type, Float32Type):
+            # fsgnjn.s reads its operands as (NaN-boxed) single-precision values
+            raise NotImplementedError("Only 32 bit floats are supported for negf")
         rewriter.replace(
             op,
             (
@@ -386,6 +393,9 @@ class LowerArithCmpf(RewritePattern):
     @op_type_rewrite_pattern
     def match_and_rewrite(self, op: arith.CmpfOp, rewriter: PatternRewriter) -> None:
         # https://llvm.org/docs/LangRef.html#id309
+        if not isinstance(op.lhs.type, Float32Type):
+            # feq.s/flt.s/fle.s read their operands as (NaN-boxed) single-precision values
+            raise NotImplementedError("Only 32 bit floats are supported for cmpf")
         lhs, rhs = cast_operands_to_regs(rewriter, op)
         cast_op_results(rewriter, op)
 
@@ -499,6 +509,9 @@ class LowerArithSIToFPOp(RewritePattern):
 class LowerArithFPToSIOp(RewritePattern):
     @op_type_rewrite_pattern
     def match_and_rewrite(self, op: arith.FPToSIOp, rewriter: PatternRewriter) -> None:
+        if not isinstance(op.input.type, Float32Type):
+            # fcvt.w.s reads its operand as a (NaN-boxed) single-precision value
+            raise NotImplementedError("Only 32 bit floats are supported for fptosi")
         rewriter.replace(
             op,
             (
